@@ -35,3 +35,16 @@ def label(argv):
     if "-solver" in argv:
         keep.append("solver=" + argv[argv.index("-solver") + 1])
     return " ".join(keep) or "default"
+
+
+ENCODER_FLAGS = [["-push-basic"], ["-pop-uninterpreted"], ["-empty"], ["-order-bounds"], ["-order-conflicts"], ["-at-most"], ["-pushed-once"],
+                 ["-no-output-before-pop"], ["-direct-inequalities"]]
+TERM_ENCODINGS = [[], ["-term-encoding", "int"], ["-term-encoding", "stack_vars"], ["-term-encoding", "uninterpreted_int"]]
+MEM_ENCODINGS = [[], ["-memory-encoding", "l_vars"]]
+
+
+def encoder_options():
+    """random subset of the encoder flags + term/memory encoding"""
+    return st.builds(lambda flags, t, m: [x for f in flags for x in f] + list(t) + list(m),
+                     st.lists(st.sampled_from(ENCODER_FLAGS), max_size=4, unique_by=lambda f: f[0]),
+                     st.sampled_from(TERM_ENCODINGS), st.sampled_from(MEM_ENCODINGS))
